@@ -36,12 +36,15 @@ RULE = ("values of all eight record kinds built from real types (chunks with 0/1
         "variant-wrapped bodies carrying an `address` next to the `value`, address as hex str / bin / int array / ..., set to the "
         "true hash, another content's hash or garbage; value as bin / str / int array; extra, missing, duplicated fields), behind "
         "Chunk and ChunkWithPayment headers; plus the exhaustive sweep of all 2^24 three-byte headers through "
-        "RecordHeader::from_record; every Request / Response variant (all NetworkAddress forms, Ok and eleven Err payloads, "
+        "RecordHeader::from_record; the record KEY of the decode cases cycles through lengths 0/1/2/3/5/31/32/33/64 bytes and every "
+        "run happens under an always-on TRACE-level tracing subscriber that formats all event fields; every Request / Response variant (all NetworkAddress forms, Ok and eleven Err payloads, "
         "0-40 keys / proofs / peers; free text of lengths 0/1/23/24/255/256/257/1000/70000 (ASCII, and 2-/3-/4-byte characters "
         "straddling every offset next to 24 and 256 -- more in thorough) and byte strings of 0..65536 bytes in every variant that "
         "carries text or bytes; each of the 17 Error variants with its payload in each of the 7 places of a Response that can carry an "
         "Error) through the real libp2p CBOR codec and rmp-serde, and truncations / bit flips of the CBOR.  Distinct/non-trivial by (op, kind, outcome class, size class)")
 ASSUMPTIONS = [
+    "all harness runs happen under an always-on tracing subscriber (every level enabled, every event's fields formatted): "
+    "evaluating and formatting log arguments is part of what the decoders do in production",
     "serde-derive symmetry (Deserialize inverts Serialize for the derived types) and the totality of the third-party typed "
     "decoders (rmp-serde, blsttc point validation, bytes) are validated by the correspondence run, not proved",
     "the recorded serde call tree (harness module rec) is normalised as documented in coq/lib/Serde.v; "
@@ -914,6 +917,20 @@ def nontrivial(c, o):
     return (c["op"],)
 
 
+KEY_LENS = [0, 1, 2, 3, 5, 31, 32, 33, 64]
+
+
+def with_keys(cases):
+    """record keys are arbitrary byte strings chosen by the remote peer: the decode cases cycle through key lengths"""
+    n = 0
+    for c in cases:
+        if c.get("op") == "decode" and "key" not in c:
+            k = KEY_LENS[n % len(KEY_LENS)]
+            c["key"] = bytes((0xab + i) & 0xff for i in range(k)).hex()
+            n += 1
+    return cases
+
+
 def tracking_oracle(c, o):
     if c.get("op") in ("record", "msg") and not any(c is c0 for c0, _ in SEEN):
         SEEN.append((c, o))
@@ -964,6 +981,6 @@ def run(ctx):
         return
     robust_pipeline(ctx, "props/C12.v", ctx.corpus() + gen_records(ctx) + gen_encseq(ctx) + gen_messages(ctx), binary, tracking_oracle, model_term,
                     IMPORTS, nontrivial=nontrivial, show=show, relation=rel, shard_size=30)
-    robust_pipeline(ctx, "props/C12.v", gen_malformed(ctx) + gen_structured_chunks(ctx) + gen_malformed_messages(ctx), binary,
+    robust_pipeline(ctx, "props/C12.v", with_keys(gen_malformed(ctx) + gen_structured_chunks(ctx)) + gen_malformed_messages(ctx), binary,
                     oracle, model_term, IMPORTS,
                     nontrivial=nontrivial, show=show, relation=rel, shard_size=150)
